@@ -96,15 +96,17 @@ def run(chk: Check) -> None:
 
     # ---- spec on implementation: extracted checker wrap_ok on the implementation's lines ----
     spec_cases = [c for c in cases if c["width"] > 0 and c["rw"] and c["dw"] and id(c) in outs]
-    reqs = []
+    reqs, reqs_strict = [], []
     for c in spec_cases:
         lines = [words_of_line(l) for l in outs[id(c)]]
         args = "%s %d %d %d %s %d %s" % (enc_bool(c["md"]), c["width"], c["c0"], c["c1"], enc_strs(c["words"]),
                                          len(lines), " ".join(enc_strs(l) for l in lines))
         reqs.append("wrap_ok " + args)
+        reqs_strict.append("wrap_ok_strict " + args)
     ans = model_batch(reqs, shards=8)
+    ans_strict = model_batch(reqs_strict, shards=8)
     nfail = 0
-    for c, a in zip(spec_cases, ans):
+    for c, a, a2 in zip(spec_cases, ans, ans_strict):
         out = outs[id(c)]
         if len(out) >= 2:
             chk.nontrivial((tuple(len(w) for w in c["words"]), c["width"], c["c0"], c["c1"], c["md"],
@@ -116,6 +118,8 @@ def run(chk: Check) -> None:
         if a.strip() != "1":
             nfail += 1
             chk.fail("property", case, "wrap_ok rejects implementation output (lossless / width / maximal violated)", classify)
+        elif a2.strip() != "1":
+            chk.fail("property", case, "strict-width: line 0 measured from the real first-line column exceeds the width although breakable", classify)
     chk.count(len(spec_cases))
     chk.port_stat("spec:wrap_ok on implementation", len(spec_cases), nfail)
     # nowrap clause on the implementation
